@@ -16,6 +16,16 @@ pub assume_specification[ rustybgp_packet::Notification::is_hard_reset ](n: &rus
     ensures r == (*n is CeaseHardReset),
 ;
 
+/// NOTIFICATION error code / subcode of the packet crate's variants (opaque here)
+pub uninterp spec fn notif_code(n: rustybgp_packet::Notification) -> u8;
+pub uninterp spec fn notif_subcode(n: rustybgp_packet::Notification) -> u8;
+pub assume_specification[ rustybgp_packet::Notification::notification_code ](n: &rustybgp_packet::Notification) -> (r: u8)
+    ensures r == notif_code(*n),
+;
+pub assume_specification[ rustybgp_packet::Notification::notification_subcode ](n: &rustybgp_packet::Notification) -> (r: u8)
+    ensures r == notif_subcode(*n),
+;
+
 /// some pair of the sequence has first component f
 pub open spec fn pairs_has(v: Seq<(Family, Duration)>, f: Family) -> bool {
     exists|i: int| 0 <= i < v.len() && (#[trigger] v[i]).0 == f
@@ -24,7 +34,7 @@ pub open spec fn pairs_has(v: Seq<(Family, Duration)>, f: Family) -> bool {
 /// R11 helper: `pairs.iter().map(|(f, _)| *f).collect()` into a hash set (std iterator algebra only)
 #[verifier::external_body]
 pub fn vx_pair_keys_to_set(pairs: &Vec<(Family, Duration)>) -> (r: FnvHashSet<Family>)
-    ensures forall|f: Family| #[trigger] r@.contains(f) <==> pairs_has(pairs@, f),
+    ensures forall|f: Family| #![trigger r@.contains(f)] #![trigger pairs_has(pairs@, f)] r@.contains(f) <==> pairs_has(pairs@, f),
 {
     pairs.iter().map(|(f, _)| *f).collect()
 }
@@ -32,7 +42,7 @@ pub fn vx_pair_keys_to_set(pairs: &Vec<(Family, Duration)>) -> (r: FnvHashSet<Fa
 /// R11 helper: `v.into_iter().collect()` into a hash set
 #[verifier::external_body]
 pub fn vx_vec_into_set(v: Vec<Family>) -> (r: FnvHashSet<Family>)
-    ensures forall|f: Family| #[trigger] r@.contains(f) <==> v@.contains(f),
+    ensures forall|f: Family| #![trigger r@.contains(f)] #![trigger v@.contains(f)] r@.contains(f) <==> v@.contains(f),
 {
     v.into_iter().collect()
 }
@@ -40,7 +50,7 @@ pub fn vx_vec_into_set(v: Vec<Family>) -> (r: FnvHashSet<Family>)
 /// R11 helper: `set.into_iter().collect()` into a vector (order unspecified)
 #[verifier::external_body]
 pub fn vx_set_into_vec(s: FnvHashSet<Family>) -> (r: Vec<Family>)
-    ensures forall|f: Family| #[trigger] r@.contains(f) <==> s@.contains(f),
+    ensures forall|f: Family| #![trigger r@.contains(f)] #![trigger s@.contains(f)] r@.contains(f) <==> s@.contains(f),
 {
     s.into_iter().collect()
 }
@@ -63,7 +73,7 @@ pub fn vx_set_filter_collect<F: Fn(&Family) -> bool>(s: FnvHashSet<Family>, f: F
     requires forall|x: &Family| call_requires(f, (x,)),
     ensures
         forall|i: int| 0 <= i < r@.len() ==> s@.contains(#[trigger] r@[i]) && call_ensures(f, (&r@[i],), true),
-        forall|x: Family| s@.contains(x) ==> (#[trigger] r@.contains(x) || call_ensures(f, (&x,), false)),
+        forall|x: Family| #![trigger s@.contains(x)] #![trigger r@.contains(x)] s@.contains(x) ==> (r@.contains(x) || call_ensures(f, (&x,), false)),
 {
     s.into_iter().filter(|x| f(x)).collect()
 }
